@@ -301,6 +301,12 @@ def cross_pairs():
         add('TLS %d.%d+session-cache-resumption+rsa' % ver, 'rsa', {'maxVersion': ver}, {}, None, True)
         add('TLS %d.%d+psk-sha256 configured+rsa' % ver, 'rsa', {'maxVersion': ver, 'pskConfigs': PSK256},
             {'pskConfigs': PSK256}, 'sha256', False)
+        # the client offers TLS 1.3 with the PSK, the SERVER stops at an older version (the PSK must then be ignored)
+        for cred in ('rsa', 'ecdsa'):
+            add('server maxVersion %d.%d+psk-sha256 offered+%s' % (ver + (cred,)), cred, {'pskConfigs': PSK256},
+                {'maxVersion': ver, 'pskConfigs': PSK256}, 'sha256', False)
+        add('server maxVersion %d.%d+psk-sha384 offered, client without aes256gcm+rsa' % ver, 'rsa',
+            {'pskConfigs': PSK384, 'cipherNames': ['aes128gcm', 'aes128']}, {'maxVersion': ver, 'pskConfigs': PSK384}, 'sha384', False)
     return out
 
 
